@@ -176,6 +176,31 @@ func Native(items []Item, indent string) string {
 	return sb.String()
 }
 
+// PrintDoc prints a JsonEnc.tla document tree (nodes [k, s, sub, x]) as JSON text.
+func PrintDoc(v any) string {
+	m := tla.Rec(v)
+	switch tla.Str(m["k"]) {
+	case "expr":
+		return jsonExpr(e1.DecodeNode(m["x"]))
+	case "str":
+		return fmt.Sprintf("%q", tla.Str(m["s"]))
+	case "arr":
+		var xs []string
+		for _, e := range tla.Seq(m["sub"]) {
+			xs = append(xs, PrintDoc(e))
+		}
+		return "[" + strings.Join(xs, ", ") + "]"
+	case "obj":
+		var ps []string
+		for _, e := range tla.Seq(m["sub"]) {
+			pm := tla.Rec(e)
+			ps = append(ps, fmt.Sprintf("%q: %s", tla.Str(pm["s"]), PrintDoc(tla.Seq(pm["sub"])[0])))
+		}
+		return "{" + strings.Join(ps, ", ") + "}"
+	}
+	panic("unknown document node " + tla.Str(m["k"]))
+}
+
 func jsonExpr(n *e1.Node) string {
 	switch n.K {
 	case "num":
